@@ -62,6 +62,9 @@ class Interp(ExprMixin, StmtMixin, CallMixin, BuiltinMixin):
 
     def run_contract(self, c):
         ctx = self.ctx
+        if ".c:" in c.qualname:
+            from .cfront import CFront
+            return CFront(self).run_contract(c)
         module, cls, fn = loader.find_function(c.qualname)
         owner = None
         if cls is not None:
